@@ -5,11 +5,11 @@ CONSTANTS
   MaxChunk = 1
   ReadIds = {}
   WriteLens = {0, 1, 3, 5}
-  MaxWrites = 5
+  MaxWrites = 4
   Grants = {1, 2, 6}
-  MaxCredit = 12
+  MaxCredit = 8
   Mwbs = {0, 6}
-  Ccs = {0, 1}
+  Ccs = {1}
   Conns = {0}
   Ops = {"write", "grant", "close", "wreset", "werror"}
 VIEW View
